@@ -206,6 +206,12 @@ def program(fn, name):
                 raise Unsupported('return shape')
             returned = True
             continue
+        if (not started and isinstance(st, ast.If) and not st.orelse and len(st.body) == 1 and isinstance(st.body[0], ast.Raise)
+                and not any(isinstance(n, (ast.NamedExpr, ast.Yield, ast.Await, ast.Lambda)) for n in ast.walk(st.test))):
+            # a precondition guard before the work vectors are touched (`if <operands are not floating point>: raise …`):
+            # it only narrows the domain — the model is typed over a field K and has no such operands; echoed, not modelled
+            echo[-1] = 'GUARD (domain restriction, not modelled): ' + src.split('\n')[0]
+            continue
         if not started:
             if set(init) != set(ARRS):
                 raise Unsupported('work vectors not all initialised before the first loop: %s' % sorted(init))
